@@ -19,12 +19,14 @@ def c01_extra(prop,tier,seed,repo,reg,known):
   res=run_specs(rtl_specs(),tier,repo)
   for r in res:
     r['obligations']=[o for o in r['obligations'] if o['kind'] in('fixpoint',)]
-  from zoo.run import run
-  return res+run(['sim'],['A','C','M'],repo,seed,tier)
+  from zoo.run import run, run_reg
+  return res+run(['sim'],['A','C','M'],repo,seed,tier)+run_reg(repo,seed,tier)
 def c02_extra(prop,tier,seed,repo,reg,known):
   from zoo.run import run_meth
   return zoo_extra(['dag','sched'],['A','B','C','M'])(prop,tier,seed,repo,reg,known)+run_meth(repo,seed,tier)
-def c07_extra(prop,tier,seed,repo,reg,known): return zoo_extra(['flip','fforder','sim'],['C'])(prop,tier,seed,repo,reg,known)
+def c07_extra(prop,tier,seed,repo,reg,known):
+  from zoo.run import run_reg
+  return zoo_extra(['flip','fforder','sim'],['C'])(prop,tier,seed,repo,reg,known)+run_reg(repo,seed,tier)
 def c11_extra(prop,tier,seed,repo,reg,known): return zoo_extra(['sim','dag'],['B'])(prop,tier,seed,repo,reg,known)
 def c08_extra(prop,tier,seed,repo,reg,known):
   from zoo.run import run_special
